@@ -99,6 +99,8 @@ func kvsOf(c *conc, ws [][2]int) []kvb {
 func randBatch(r *rand.Rand, nkeys, nvals, maxb int, vals []int) [][2]int {
 	n := 1
 	switch x := r.Intn(10); {
+	case maxb >= 100 && x < 7: // large-alphabet recordings: mostly big batches
+		n = 1 + r.Intn(maxb)
 	case x < 5:
 		n = 1 + r.Intn(4)
 	case x < 8:
